@@ -32,6 +32,7 @@ def generate(prop, seed, tier):
                                        "<stdin>", "C:\\Users\\u\\plan.py", "/srv/app/ipykernel_launcher_jobs.py",
                                        "<PKG>_pipelines/build.py", "<PKG>_jobs.py", "<PKGPARENT>/uberjobs/plan.py"])
     world["creator_in_helper"] = rng.random() < 0.5   # the creating line itself lives in the helper file
+    world["gen_build"] = rng.random() < 0.3            # calls created by a generator resumed from different places
     cfg = worldgen.gen_cfg(rng, world, registry=registry, retry_p=0.2)
     cfg["max_errors"] = rng.choice([0, 0, 1, None])
     sc = worldgen.gen_sched(rng)
@@ -41,7 +42,7 @@ def generate(prop, seed, tier):
     calls = [n for n in world["nodes"] if n["kind"] == "call"]
     if kind == "call" and calls:
         for n in rng.sample(calls, min(len(calls), rng.randrange(1, 3))):
-            faults["calls"][str(n["id"])] = dict(exc=rng.choice(["E1", "E2", "B1"]))
+            faults["calls"][str(n["id"])] = dict(exc=rng.choice(["E1", "E2", "B1", "F1", "CallError", "NodeError"]))
     elif kind in ("store", "mtime") and world["stores"]:
         names = sorted(world["stores"])
         op = "mtime" if kind == "mtime" else rng.choice(["read", "write", "write"])
@@ -173,6 +174,12 @@ def execute(prop, desc):
         shims.install_node_hash(desc["sched"].get("salt", 0))
         built = B.build_in_bare_thread(world)
     pre = []
+    foreign = []
+    if built is None and not desc.get("concurrent_build"):
+        from simkit import shims
+
+        shims.install_node_hash(desc["sched"].get("salt", 0))
+        built = B.build(world)
     if desc.get("concurrent_build"):
         from simkit import shims
 
@@ -181,21 +188,23 @@ def execute(prop, desc):
         if built is None or bsim.hung is not None or bsim.thread_deaths:
             # (building does not block on anything in the code under test: treat this as the harness's own failure)
             raise sched.HarnessError(f"concurrent plan building did not finish: {bsim.hung or bsim.thread_deaths}")
-        # every node carries the frames of the line that created it, whichever thread ran in between
-        for key, fr in sorted(built.frames.items(), key=repr):
-            if key[0] != "node" or ref.by_id(world)[key[1]]["kind"] == "item":
-                continue
-            got = chain_of(getattr(built.nodes[key[1]], "stack_frame", None))
-            if got != expected_chain(fr):
-                pre.append(O.V("wrong-creation-site", f"Plan built by two threads: node {key[1]} carries the symbolic "
-                                                      f"traceback {got}, it was created at {expected_chain(fr)}"))
-                break
-        for node, fr in foreign:
-            got = chain_of(getattr(node, "stack_frame", None))
-            if not pre and got != expected_chain(fr):
-                pre.append(O.V("wrong-creation-site", f"Plan built by two threads: a node created by the second thread "
-                                                      f"carries {got}, it was created at {expected_chain(fr)}"))
-                break
+    # right after building: every node carries the frames of the line that created it (whatever was created before it,
+    # by whichever thread or generator)
+    how = "built by two threads" if desc.get("concurrent_build") else ("built in a bare thread" if desc.get("bare") else "built")
+    for key, fr in sorted(built.frames.items(), key=repr):
+        if key[0] != "node" or ref.by_id(world)[key[1]]["kind"] == "item":
+            continue
+        got = chain_of(getattr(built.nodes[key[1]], "stack_frame", None))
+        if got != expected_chain(fr):
+            pre.append(O.V("wrong-creation-site", f"Plan {how}: node {key[1]} carries the symbolic traceback {got}, it was "
+                                                  f"created at {expected_chain(fr)}"))
+            break
+    for node, fr in foreign:
+        got = chain_of(getattr(node, "stack_frame", None))
+        if not pre and got != expected_chain(fr):
+            pre.append(O.V("wrong-creation-site", f"Plan {how}: a node created by the second thread carries {got}, it was "
+                                                  f"created at {expected_chain(fr)}"))
+            break
     rec = machine.run_op(hist, desc["ops"][0], 0, tape=tapes.get("0"), built=built)
     viol = list(pre)
     fired = {}
@@ -247,6 +256,9 @@ def execute(prop, desc):
                 want = render_expected(exp, fully_qualified_name(e.call.fn))
                 if str(e) != want:
                     viol.append(O.V("wrong-rendering", f"str(CallError) is {str(e)!r}, expected {want!r}"))
+        elif desc.get("fault_kind") == "call" and who[0] not in ("node", "read", "write"):
+            viol.append(O.V("call-not-of-this-plan", f"only calls of the plan were made to fail, but CallError.call is "
+                                                     f"{who!r} - not a call of the plan that was run"))
         else:
             fired["unattributable"] = 1
     elif rec.exc is None:
